@@ -74,6 +74,10 @@ func newReplicaSelector(
 		op(&option)
 	}
 	disableReadFeaturesForNextGen(req)
+	if req.StaleRead && !isReadReq(req.Type) {
+		// A write command can never be served as a stale read.
+		req.StaleRead = false
+	}
 	if req.ReplicaReadType == kv.ReplicaReadPreferLeader {
 		WithPerferLeader()(&option)
 	}
